@@ -16,7 +16,12 @@ SPEC = {
             "canonical well-formed strings must decode to Python's value, non-canonical trailing bits are unconstrained. "
             "rot13: all 0..2-byte strings + random. escape_url (2 modes), escape_controls (2 modes), escape_quotes: all 0..2-byte "
             "strings + 10k/100k random each. netloc: every port 0..65535 x 16 (quick) / 110 (thorough) colon-free hosts. "
-            "Concurrency stages (4 asan + 2 tsan processes): ~380 records per process (encode/decode both alphabets incl. corrupted "
+            "Length ladder: every size 2^k+d (k=3..20) and 3*2^k+d (k=2..18), d in -2..+2 (above 64 KiB only -1..+1 in the quick "
+            "tier), plus 12286/12290 and 1 MiB+1 = 157 (quick) / 173 (thorough) sizes, for base64_encode (2 alphabets x uniform / "
+            "sextet-62/63-heavy data), base64_decode (valid encodings of the encoded lengths next to each size with all padding shapes + "
+            "a copy with one non-alphabet character at the ends / middle / next to a 4 KiB, 16 KiB or 64 KiB boundary, 2 alphabets), "
+            "rot13, escape_url x2, escape_controls x2, escape_quotes (nothing-to-escape / every-byte-escaped / mixed data up to 64 KiB, "
+            "sparse above). Concurrency stages (4 asan + 2 tsan processes): ~380 records per process (encode/decode both alphabets incl. corrupted "
             "encodings, rot13, escape_url x2, escape_controls x2, escape_quotes with inputs whose every byte needs a different escape, "
             "netloc 48-port ranges); one single-threaded pass is logged and judged as above, then 8 threads (barrier start) repeat "
             "their own records for 60/300 (asan) or 4/25 (tsan) rounds and every result must be byte-identical to that pass. "
@@ -55,6 +60,11 @@ SPEC = {
         "mt:concurrent:8threads:escape_controls:flag1:*", "mt:concurrent:8threads:escape_quotes:*", "mt:concurrent:8threads:netloc:*",
         "tsan:concurrent:8threads:escape_controls:*", "tsan:concurrent:8threads:escape_quotes:*", "tsan:concurrent:8threads:base64_decode:*",
         "tsan:concurrent:8threads:netloc:*",
+        "big:b64enc:std:4K-16K", "big:b64enc:std:>=1MiB", "big:b64enc:urlsafe:4K-16K", "big:b64enc:urlsafe:>=1MiB",
+        "big:b64dec:std:returned:>=1MiB", "big:b64dec:urlsafe:returned:>=1MiB", "big:b64dec:std:rejected:16K-64K",
+        "big:b64dec:urlsafe:rejected:64K-1M", "big:rot13:>=1MiB", "big:escape_url:keep-slash:>=1MiB", "big:escape_url:escape-slash:>=1MiB",
+        "big:escape_controls:ascii:>=1MiB", "big:escape_controls:utf8:>=1MiB", "big:escape_quotes:>=1MiB",
+        "big:escape_url:*:4K-16K", "big:escape_controls:*:4K-16K", "big:escape_quotes:4K-16K",
         "netloc:host-1char*", "netloc:host-255+*", "netloc:*highbytes*", "netloc:*:ports-from0", "netloc:*:ports-to65535",
     ],
     "exhaustive": {"quick": False, "thorough": False},
